@@ -396,3 +396,7 @@ def replay(run, data) -> None:
         roundtrip(run, vmf, case['opts'], 'replay', case, features)
     run.case(case, True, sample=case, tag='replay')
     run.case('pad', True)
+
+
+# (kept at the end of the file so that the text above stays the description the check was first built to)
+RULE += ' ' + 'Later additions: entities with 98-112 fixups and explicit three-digit replaceNN indexes; viewport roll; world brushes in several visgroups; all 16 displacement flag values; worldspawn with a targetname and fixups; 0 / 1 / 12 Strata points.'
